@@ -99,7 +99,17 @@ def trace(seed, n, path):
         # the probed direction is the second one of a 2-D box whose first direction has 2 cells
         boxed([2.0, L])
         cls = CuboidPeriodicCells if which % 2 == 0 else CuboidCells
-        cells = cls(cells_per_side=[2, k], neighbor_layers=1)
+        x0 = 1.5
+        if which % 5 == 4 and k >= 2:
+            x0 = 1.5 * 1.75 / k
+            # fewer cell counts than dimensions: the one count is used for every direction (as hard_disk_dipoles_cells.ini does)
+            boxed([1.75, L])
+            cells = cls(cells_per_side=[k], neighbor_layers=1)
+            col0 = [c for c in cells.yield_cells() if c.identifier[0] == 1]
+            if [c.identifier[1] for c in col0] != list(range(k)):
+                raise AssertionError("one cell count for two directions does not give %d cells along the second one" % k)
+        else:
+            cells = cls(cells_per_side=[2, k], neighbor_layers=1)
         cl = list(cells.yield_cells())
         col = [c for c in cl if c.identifier[0] == 1]
         assert [c.identifier[1] for c in col] == list(range(k))
@@ -115,7 +125,7 @@ def trace(seed, n, path):
         # position list), first in ascending order and then in a shuffled one: the map must not depend on earlier look-ups
         xs = sorted(set(p for p in probes if 0.0 <= p < L))
         walk = xs + rnd.sample(xs, len(xs))
-        position = [1.5, 0.0]
+        position = [x0, 0.0]
         for x in walk:
             try:
                 position[1] = x
